@@ -312,12 +312,14 @@ def mutStep (ts : TableSchema) (old : Model) (acc : Model × AMap String Value) 
     domainCheck nv mu.mutator
     match acc.1.field mu.col, old.field mu.col with
     | some cur, some o =>
-      let (newV, diff) := mutate cur mu.mutator nv
-      let r := mergeDifference (some o) (get? acc.2 mu.col) diff
-      let diffs := match r.2, r.1 with
-        | true, some d => insert acc.2 mu.col d
-        | _, _ => erase acc.2 mu.col
-      pure (acc.1.setField mu.col newV, diffs)
+      if outOfRange cur mu.mutator nv then throw OpErr.range
+      else
+        let (newV, diff) := mutate cur mu.mutator nv
+        let r := mergeDifference (some o) (get? acc.2 mu.col) diff
+        let diffs := match r.2, r.1 with
+          | true, some d => insert acc.2 mu.col d
+          | _, _ => erase acc.2 mu.col
+        pure (acc.1.setField mu.col newV, diffs)
     | _, _ => throw OpErr.other
 
 /-- what a successful step did -/
@@ -346,8 +348,11 @@ theorem mutStep_ok (ts : TableSchema) (old : Model) (acc acc' : Model × AMap St
           cases ho : old.field mu.col with
           | none => simp [hf, ho, throw, throwThe, MonadExceptOf.throw] at h
           | some o =>
-            simp only [hf, ho, pure, Except.pure, Except.ok.injEq] at h
-            exact ⟨nv, cur, o, rfl, hval, rfl, rfl, by rw [← h]⟩
+            simp only [hf, ho] at h
+            split at h
+            · simp [throw, throwThe, MonadExceptOf.throw] at h
+            · simp only [pure, Except.pure, Except.ok.injEq] at h
+              exact ⟨nv, cur, o, rfl, hval, rfl, rfl, by rw [← h]⟩
 
 /-- arithmetic on a set column takes an atom where the conversion wrapped it in a set -/
 def adjArg (k : ColKind) (m : Mutator) (arg : Value) : Value :=
@@ -530,6 +535,7 @@ def mutStepRaw (ts : TableSchema) (old : Model) (acc : Model × AMap String Valu
         | _, _ => pure ()
         match acc.1.field mu.col, old.field mu.col with
         | some cur, some o =>
+          if outOfRange cur mu.mutator nv then throw OpErr.range
           let (newV, diff) := mutate cur mu.mutator nv
           let r := mergeDifference (some o) (get? acc.2 mu.col) diff
           let diffs := match r.2, r.1 with
@@ -553,7 +559,7 @@ theorem mutStepRaw_eq (ts : TableSchema) (old : Model) : mutStepRaw ts old = mut
       | error e => rfl
       | ok u =>
         simp only
-        split <;> (first | rfl | (split <;> rfl))
+        split <;> (first | rfl | (split <;> rfl) | (split <;> split <;> rfl) | (split <;> (try split) <;> (try split) <;> rfl))
 
 /-- the tie to the model of the code: `addOperation` for a `mutate` runs exactly this fold -/
 theorem addOperation_mutate_eq (ts : TableSchema) (acc : ModelUpdate) (u : UUID) (old : Model) (ms : List Mutation) :
@@ -585,5 +591,67 @@ theorem addOperation_mutate_fold (ts : TableSchema) (acc : ModelUpdate) (u : UUI
     · cases h
     · rename_i p hp
       exact ⟨p.1, p.2, hp⟩
+
+/-! ### range errors -/
+
+theorem inRange_none_iff (r : Int) : Rfc.inRange r = none ↔ (r < int64Lo ∨ r > int64Hi) := by
+  unfold Rfc.inRange Rfc.int64Min Rfc.int64Max int64Lo int64Hi
+  split
+  · constructor
+    · intro h; cases h
+    · intro h; omega
+  · constructor
+    · intro _; omega
+    · intro _; rfl
+
+/-- **C03 (20)** range errors, integers: the code refuses an arithmetic mutation exactly when the
+    reference has no result for it because of overflow (the zero divisor is refused before, as a domain
+    error) -/
+theorem outOfRange_int_iff (x y : Int) (m : Mutator) (hm : isArith m = true) (hz : (m = .div ∨ m = .mod) → y ≠ 0) :
+    outOfRange (.atom (.int x)) m (.atom (.int y)) = true ↔ Rfc.mutateValue (.atom (.int x)) m (.atom (.int y)) = none := by
+  cases m <;> simp only [isArith] at hm <;>
+    simp only [outOfRange, Rfc.mutateValue, Bool.or_eq_true, decide_eq_true_eq, Option.map_eq_none_iff]
+  · exact (inRange_none_iff _).symm
+  · exact (inRange_none_iff _).symm
+  · exact (inRange_none_iff _).symm
+  · have := hz (Or.inl rfl)
+    simp only [this, if_false, Option.map_eq_none_iff]
+    exact (inRange_none_iff _).symm
+  · have := hz (Or.inr rfl)
+    simp [this]
+  all_goals cases hm
+
+/-- the same for reals: a result that is not a finite float64 -/
+theorem outOfRange_real_iff (x y : Rat) (m : Mutator) (hm : isArith m = true) (hmod : m ≠ .mod) (hz : m = .div → y ≠ 0) :
+    outOfRange (.atom (.real x)) m (.atom (.real y)) = true ↔ Rfc.mutateValue (.atom (.real x)) m (.atom (.real y)) = none := by
+  have hr : ∀ r : Rat, Rfc.realInRange r = none ↔ (r < -maxFloat64 ∨ r > maxFloat64) := by
+    intro r
+    unfold Rfc.realInRange
+    split
+    · rename_i h
+      constructor
+      · intro h'; cases h'
+      · intro h'
+        rcases h' with h' | h'
+        · exact absurd h.1 (Rat.not_le.mpr h')
+        · exact absurd h.2 (Rat.not_le.mpr h')
+    · rename_i h
+      constructor
+      · intro _
+        by_cases h1 : -maxFloat64 ≤ r
+        · right
+          exact Rat.not_le.mp (fun h2 => h ⟨h1, h2⟩)
+        · left; exact Rat.not_le.mp h1
+      · intro _; rfl
+  cases m <;> simp only [isArith] at hm <;>
+    simp only [outOfRange, Rfc.mutateValue, Bool.or_eq_true, decide_eq_true_eq, Option.map_eq_none_iff]
+  · exact (hr _).symm
+  · exact (hr _).symm
+  · exact (hr _).symm
+  · have := hz rfl
+    simp only [this, if_false, Option.map_eq_none_iff]
+    exact (hr _).symm
+  · exact absurd rfl hmod
+  all_goals cases hm
 
 end Ovsdb.C03
